@@ -3,8 +3,8 @@ package main
 import (
 	"fmt"
 	"go/ast"
-	"os"
 	"go/types"
+	"os"
 	"sort"
 	"strings"
 
@@ -440,6 +440,61 @@ func checkC17(c *Ctx) (string, []string) {
 		c.Bad("C17.order", K+"StateEncoder · final sort", enc.Pos(), "%s", why)
 	}
 
+	c.Rule("C17.fresh-decode-target", "every protocol Decode call of the import code (internal/utilities/merklization) that sits in a loop decodes into a variable created inside that loop iteration, or into a type whose Decode stores the whole receiver on every successful path; a target shared by iterations whose Decode may leave it untouched (e.g. a sequence decoder returning early on length 0) hands one entry the content of the previous one", 15)
+	for _, f0 := range c.SrcFuncs(mzPkg) {
+		for _, f := range withClosures(f0) {
+			allInstrs(f, func(in ssa.Instruction) {
+				call, ok := in.(*ssa.Call)
+				if !ok {
+					return
+				}
+				sc := call.Call.StaticCallee()
+				if sc == nil || (sc.String() != "(*"+modPath+"/internal/types.Decoder).Decode" && sc.String() != "(*"+modPath+"/internal/types.Decoder).DecodeWithConsumed") || len(call.Call.Args) < 3 {
+					return
+				}
+				tgt := call.Call.Args[2]
+				if mi, ok := tgt.(*ssa.MakeInterface); ok {
+					tgt = mi.X
+				}
+				key := funcKey(f) + " · Decode(" + abbr(exprStr(call.Call.Args[1], shapeOpts)) + ", " + abbr(typeStr(tgt.Type())) + ")"
+				// cycles through the call that avoid the creation point of the target
+				var create *ssa.BasicBlock
+				if a, ok := tgt.(*ssa.Alloc); ok {
+					create = a.Block()
+				}
+				shared := false
+				seen := map[*ssa.BasicBlock]bool{}
+				work := append([]*ssa.BasicBlock{}, call.Block().Succs...)
+				for len(work) > 0 {
+					b := work[len(work)-1]
+					work = work[:len(work)-1]
+					if seen[b] || b == create {
+						continue
+					}
+					seen[b] = true
+					if b == call.Block() {
+						shared = true
+						break
+					}
+					work = append(work, b.Succs...)
+				}
+				if create == call.Block() && create != nil {
+					// alloc and call in one block: fresh iff the alloc precedes the call
+					shared = false
+				}
+				if !shared {
+					c.OK("C17.fresh-decode-target", key, call.Pos(), "target is created for this call (not shared between loop iterations)")
+					return
+				}
+				if ok, why := decodeOverwrites(c, tgt.Type()); ok {
+					c.OK("C17.fresh-decode-target", key, call.Pos(), "target is shared between iterations but its Decode stores the whole receiver on every successful path")
+				} else {
+					c.Bad("C17.fresh-decode-target", key, call.Pos(), "the decode target is shared by the iterations of the enclosing loop and %s: an entry can inherit the previous entry's content", why)
+				}
+			})
+		}
+	}
+
 	c.Rule("C17.restore", "restoring a stored state installs the parsed state as prior, the parsed raw entries as prior raw pool and a deep copy of those same entries as posterior raw pool; RestoreBlockAndState feeds it the two results of StateKeyValsToState over the stored key-values", 4)
 	rw := c.Fn(bcPkg, "ChainState.restoreWithState")
 	B := "(*internal/blockchain.ChainState)."
@@ -459,4 +514,59 @@ func checkC17(c *Ctx) (string, []string) {
 	c.Check(len(args) == 1 && abbr(args[0]) == st+"#0" && len(args4) == 1 && abbr(args4[0]) == st+"#1", "C17.restore", B+"RestoreBlockAndState", rb.Pos(), "restores (state, raw entries) parsed from the stored key-values of the requested block", fmt.Sprintf("restoreWithState receives state=%v raw=%v", args, args4))
 	return "State export/import mechanisms decided statically: the index↔component table of the exporter and of both importers agree and cover every component; service entries are recognised by rebuilding their keys with the exporter's own constructors; the account update helpers touch one component; encodeDelta1 follows the ServiceInfo codec order; an entry leaves the unmatched pool only after its content reached the state and all remaining entries are returned; the export is sorted by key; a restore installs the parsed raw entries as prior pool and a deep copy of the same entries as posterior pool.",
 		[]string{"AST tables resolved through go/types; canonical SSA shapes", "not decided: that an arbitrary storage value is never mistaken for a preimage (hash preimage resistance), value-level equality of re-serialisation"}
+}
+
+// decodeOverwrites: the Decode method of the pointed-to type stores the whole
+// receiver (*recv = …) on every path to a successful return.
+func decodeOverwrites(c *Ctx, ptr types.Type) (bool, string) {
+	pt, ok := ptr.Underlying().(*types.Pointer)
+	if !ok {
+		return false, "its type is not a pointer to a decodable type"
+	}
+	ms := c.SSA().MethodSets.MethodSet(pt)
+	sel := ms.Lookup(nil, "Decode")
+	if sel == nil {
+		for i := 0; i < ms.Len(); i++ {
+			if ms.At(i).Obj().Name() == "Decode" {
+				sel = ms.At(i)
+			}
+		}
+	}
+	if sel == nil {
+		return false, "its type has no Decode method (reflective decoding may keep existing content)"
+	}
+	m := c.SSA().MethodValue(sel)
+	if m == nil || len(m.Blocks) == 0 || len(m.Params) == 0 {
+		return false, "its Decode method has no body to inspect"
+	}
+	recv := m.Params[0]
+	storeBlocks := map[*ssa.BasicBlock]int{} // block -> index of first whole store
+	for _, b := range m.Blocks {
+		for i, in := range b.Instrs {
+			if st, ok := in.(*ssa.Store); ok && st.Addr == ssa.Value(recv) {
+				if _, has := storeBlocks[b]; !has {
+					storeBlocks[b] = i
+				}
+			}
+		}
+	}
+	// reach successful returns without passing a whole store
+	seen := map[*ssa.BasicBlock]bool{}
+	work := []*ssa.BasicBlock{m.Blocks[0]}
+	for len(work) > 0 {
+		b := work[len(work)-1]
+		work = work[:len(work)-1]
+		if seen[b] {
+			continue
+		}
+		seen[b] = true
+		if _, has := storeBlocks[b]; has {
+			continue
+		}
+		if r, ok := b.Instrs[len(b.Instrs)-1].(*ssa.Return); ok && !isErrorReturn(m, r) {
+			return false, fmt.Sprintf("%s can return successfully without writing its receiver (%s)", relName(m.String()), c.pos(r.Pos()))
+		}
+		work = append(work, b.Succs...)
+	}
+	return true, ""
 }
